@@ -72,8 +72,13 @@ Max(S) == CHOOSE x \in S : \A y \in S : x >= y
    request that was flushed away (the reply is then late: a C07 verdict, but it is still accounted
    to that request so that its consequences are not reported a second time under another name) *)
 OnR ==
-  LET cands == Outstanding(E.tag)
-      late  == AwayWithTag(E.tag) IN
+  LET cands0 == Outstanding(E.tag)
+      late  == AwayWithTag(E.tag)
+      \* a reply carrying a payload the implementation produced for a request that was flushed / aborted away, while a
+      \* NEW request reuses the tag: the client takes it for the answer to the new request.  It is accounted to the old one.
+      staleFor == {m \in late : E.payload > 0 /\ E.payload \in answers[m]}
+      stale == cands0 # {} /\ staleFor # {} /\ ~(E.payload \in answers[Min(cands0)])
+      cands == IF stale THEN {} ELSE cands0 IN
   IF E.bad # ""
     THEN /\ Verdict("C03", "undecodable-reply", E.bad)
          /\ UNCHANGED <<sent, replied, away, answers, called, answeredN, live, maybe, nclosed, cclosed, dseen>>
@@ -82,7 +87,7 @@ OnR ==
               THEN Verdict("C03", "second-reply", <<E.tag, E.type>>)
               ELSE Verdict("C03", "reply-without-request", <<E.tag, E.type>>)
          /\ UNCHANGED <<sent, replied, away, answers, called, answeredN, live, maybe, nclosed, cclosed, dseen>>
-  ELSE LET n == IF cands # {} THEN Min(cands) ELSE Max(late)
+  ELSE LET n == IF stale THEN Max(staleFor) ELSE IF cands # {} THEN Min(cands) ELSE Max(late)
            t == sent[n].type
            okType == E.type = RespOf[t] \/ E.type = "Rerror"
            \* content: a payload-carrying reply must carry a payload the implementation produced for n;
@@ -102,6 +107,7 @@ OnR ==
        /\ ((cands = {}) => Verdict("C07", "reply-after-rflush", <<n, t, E.type>>))
        \* ... and once the client has read the Rflush the old tag has no outstanding request any more (C03)
        /\ ((cands = {}) => Verdict("C03", "reply-after-rflush", <<n, t, E.type>>))
+       /\ (stale => Verdict("C03", "late-reply-under-reused-tag", <<n, t, E.type>>))
        \* C04: the destruction of a fid is reported no later than the reply that invalidates it
        \* (judged only when no other unanswered request names that fid: one in progress legitimately keeps it alive)
        /\ (((t = "Tclunk" /\ E.type = "Rclunk") \/ t = "Tremove") /\ n \notin dseen /\ answers[n] # {}
@@ -193,6 +199,7 @@ OnProbe ==
 OnEnd ==
   /\ (cclosed /\ nclosed # 1) => Verdict("C11", "closed-count", nclosed)
   /\ (cclosed /\ live # {}) => Verdict("C11", "fid-not-destroyed", live)
+  /\ (cclosed /\ live # {}) => Verdict("C04", "fid-never-destroyed", live)
   /\ (Len(E.parked) > 0) => Verdict("C11", "stuck-after-disconnect", E.parked)
   /\ UNCHANGED <<sent, replied, away, answers, called, answeredN, live, maybe, nclosed, cclosed, dseen>>
 
